@@ -221,6 +221,13 @@ func (g *Gen) builtin(fn *ssa.Function, st *State, bi *ssa.Builtin, call *ssa.Ca
 	case "append":
 		a := g.val(st, call.Args[0])
 		b := g.val(st, call.Args[1])
+		if g.opaqueStr && b.Kind == "int" && isStringType(call.Args[1].Type()) {
+			// append(bytes, s...) with an opaque string: its bytes are strbyte(s, k), its length strlen(s)
+			arr := g.newSym("strbytes", "(Array Int Int)")
+			sl := fmt.Sprintf("(%s %s)", g.uf("strlen", 1, "Int"), b.T)
+			g.assume(st, fmt.Sprintf("(forall ((k!sb Int)) (! (= (select %s k!sb) (%s %s k!sb)) :pattern ((select %s k!sb))))", arr, g.uf("strbyte", 2, "Int"), b.T, arr))
+			b = Val{T: arr, Len: sl, Off: "0", Kind: "str"}
+		}
 		r := g.freshRef(st)
 		if stt, el, ok := structElem(call.Args[0].Type()); ok {
 			// slice of structs: copy every field array; the result starts at offset 0 of a fresh store
